@@ -1,6 +1,8 @@
 package opset13
 
 import (
+	"sort"
+
 	"github.com/advancedclimatesystems/gonnx/onnx"
 	"github.com/advancedclimatesystems/gonnx/ops"
 	"gorgonia.org/tensor"
@@ -44,6 +46,17 @@ func (s *Squeeze) Apply(inputs []tensor.Tensor) ([]tensor.Tensor, error) {
 		dimsToSqueeze, err = getDimsToSqueezeFromTensor(inputs[1], nDims)
 		if err != nil {
 			return nil, err
+		}
+
+		// Negative axes have been offset by now, so every axis must be a dimension of the input.
+		if !ops.AllInRange(dimsToSqueeze, 0, nDims-1) {
+			return nil, ops.ErrNotAllAxesInRange(nDims, nDims)
+		}
+
+		sort.Ints(dimsToSqueeze)
+
+		if ops.HasDuplicates(dimsToSqueeze) {
+			return nil, ops.ErrInvalidInput("axes cannot have duplicate entries after offset", s)
 		}
 	}
 
